@@ -217,11 +217,16 @@ func jobC02(c *rt.Ctx) {
 		if rec.calls != 0 {
 			c.Violation("C02 entropy-read", "PrivateKey.Sign read from its entropy argument", map[string]interface{}{"calls": rec.calls})
 		}
-		if sv.v == ref.Pure && len(msg) == 0 {
+		if sv.v != ref.Ph && len(msg) == 0 {
 			// a nil message is the empty message
-			check("helper", Sign(priv, nil), nil)
 			sn, en := priv.Sign(nil, nil, opts)
 			check("options", sn, en)
+			if ok, pv := implSingleOpts(triple{append([]byte{}, priv[32:]...), nil, want}, variantSpec{sv.v, sv.ctx}, false); !ok || pv != nil {
+				c.Violation("C02 nil-message verify", "the signature over the empty message is not accepted for a nil message", map[string]interface{}{"seed": ref.Hex(seed), "variant": sv.v.String()})
+			}
+		}
+		if sv.v == ref.Pure && len(msg) == 0 {
+			check("helper", Sign(priv, nil), nil)
 			if !Verify(PublicKey(priv[32:]), nil, want) || !Verify(PublicKey(priv[32:]), []byte{}, want) {
 				c.Violation("C02 nil-message verify", "the signature over the empty message is not accepted for a nil / empty message", map[string]interface{}{"seed": ref.Hex(seed)})
 			}
